@@ -5,6 +5,7 @@ to `mrhelper`, and talks to the Lean driver over the JSON line protocol.
 Nothing is kept under /tmp; scratch lives under $VERIF_SCRATCH (default /var/tmp) and is removed
 as each scenario finishes."""
 import json
+from concurrent.futures import ThreadPoolExecutor
 import os
 import random
 import shutil
@@ -376,6 +377,29 @@ class Report:
         return {"evaluations": self.evaluations, "distinct_nontrivial": len(self.nontrivial), "hist": self.hist,
                 "samples": self.samples, "oracle_failures": self.oracle_failures, "disagreements": self.disagreements,
                 "exhaustive": self.exhaustive, "notes": self.notes}
+
+
+def run_cases(fn, items, rep, workers):
+    """evaluate every case on a thread pool; a case whose evaluation raises (the implementation did
+    something the scenario code did not foresee, or the machine hiccuped) is retried twice and, if it
+    never completes, reported as a correspondence failure with the exception - never as a crash of
+    the whole check"""
+    import traceback
+
+    def guarded(item):
+        last = None
+        for attempt in range(3):
+            try:
+                return fn(item)
+            except Exception:            # noqa: BLE001
+                last = traceback.format_exc()
+                rep.count("case_exception")
+                time.sleep(0.2 * (attempt + 1))
+        rep.disagree({"kind": "the scenario could not be evaluated: its evaluation raised three times", "case": repr(item)[:300],
+                      "exception": last[-1500:]})
+        return None
+    with ThreadPoolExecutor(max_workers=workers) as ex:
+        return list(ex.map(guarded, items))
 
 
 def parse_args(argv):
